@@ -27,22 +27,22 @@ CHECKS = {
 CHECKS['C18'] = dict(engine='aio-sim', level='exploration', technique='deterministic simulation: scripted TAP producer processes on the virtual-time loop; byte stream chunked/delayed/cut at arbitrary offsets (crash, kill, timeout), exit status delivered independently; delivered prefix checked line by line against an independent TAP reference interpreter, streamed run vs direct parse for chunking invariance, verdict folded with exit status',
    text='Seeded search over producer behaviours (what is written, how it is chunked, where the stream is cut, how the process ends). The line grammar itself is a function of its input; what the simulation adds and decides is the stream surface named in the statement: truncated streams (unterminated YAML, missing plan, partial last line), exit status arriving independently of the stream, and chunk/timing invariance of the derived events.',
    note='Trusted: models/tap_ref.py (hand-written from the TAP 12/13 documents; undecided forms are marked and nothing is demanded on them); simulator pipe model. Real code: read_decode, TAPParser, TestRunTAP, loggers, asyncio StreamReader.', ref='DESIGN §3 C18')
-CHECKS['C09'] = dict(engine='crash-shim', level='fault_enumeration', technique='fault injection by enumeration of crash points: the real command runs under an LD_PRELOAD interposer that numbers every file-system mutation and SIGKILLs the process before call k (and mid-write for torn writes); every k of each command is visited on seeded build-directory histories, then the documented recovery is run and option values are compared with the pre/post states',
+CHECKS['C09'] = dict(engine='crash-shim', level='fault_enumeration', technique='fault injection by enumeration of crash points: the real command runs under an LD_PRELOAD interposer that numbers every file-system mutation and SIGKILLs the process before call k (and mid-write for torn writes); every k of each command is visited on seeded build-directory histories, then the documented recovery is run, option values are compared with the pre/post states and every pickled state file the recovered directory refers to must load',
    text='Per (history, command) the set of kill points is enumerated completely in the thorough tier (all n mutation points, plus torn variants of data writes); histories, projects and commands are sampled by seed. Quick visits every point that touches a state file or is a rename/unlink/rmdir plus a seeded sample of the rest.',
    note='Trusted: the interposer sees every mutating libc call of the main process (open*/write*/rename*/unlink*/mkdir*/rmdir/fsync/truncate/link/symlink/chmod/utimensat/sendfile/copy_file_range); process-kill crash model (completed calls persist). Recovery, read-back and the command itself are real code of the tree.', ref='DESIGN §3 C09')
-CHECKS['C08'] = dict(engine='proc-sim', level='exploration', technique='deterministic simulation of process histories over persistent state: each lifecycle command runs in its own forked child over one build directory, with seeded option assignments, option-file edits and injected failures (invalid -D, armed error(), OSError at the k-th storage call); a reference model is stepped after every operation and compared with get_option() values, command outcomes and the recorded command line',
+CHECKS['C08'] = dict(engine='proc-sim', level='exploration', technique='deterministic simulation of process histories over persistent state: each lifecycle command runs in its own forked child over one build directory, with seeded option assignments, option-file edits and injected failures (invalid -D, armed error(), a post-configuration script failing after the state files were written, OSError at the k-th storage call); a reference model is stepped after every operation and compared with get_option() values, command outcomes and the recorded command line',
    text='Seeded search over bounded histories (2-12 steps) incl. option-file edits (add/remove/rename/narrow/widen/default/range), machine-file values, both spellings of top-level options and top-level-only overrides of built-ins. Fault-free and fault-injecting histories are generated separately so the failed-step relaxation never hides a persistence bug.',
    note='Trusted: models/options_ref.py (written from the statement; cases the statement does not decide are marked undetermined and followed, not judged). Real code: msetup, mconf, coredata, cmdline, OptionStore, interpreter.', ref='DESIGN §3 C08')
 CHECKS['C10'] = dict(engine='proc-sim+net', level='exploration', technique='deterministic simulation with fault injection: real interpreter/dependency()/wrap.Resolver in a forked child against a scripted fake HTTP server, simulated back-off clock, digest-recording unpacker and a private pkg-config world; faults (URLError, OSError, truncated body, flipped byte, substituted archive, corrupt cache/packagefiles, failing patch/diff) injected at each acquisition step; results compared with a transcription of the documented policy, integrity invariants checked on every unpack, and the world is configured a second time',
    text='Seeded search over the policy cross product and over fault sequences along fetch -> verify -> unpack -> patch -> diff, each world configured twice in fresh build directories so that what a failed run leaves behind is also judged, and a third time in the first build directory under other fallback settings so that what an earlier run cached cannot decide. The fault-free cross product named in the quantifier (12,960 cells) is enumerated completely at the start of the thorough tier.',
    note='Trusted: models/deps_ref.py (policy and acquisition procedure written from the statement and the manuals; an unverifiable corrupt local archive is marked undetermined), fake server implements info()/read()/close() only. Real code: DependencyFallbacksHolder, pkg-config detection with the real binary, wrap.Resolver incl. patch(1).', ref='DESIGN §3 C10')
 CHECKS['C11'] = dict(engine='proc-sim+fs', level='exploration', technique='deterministic simulation of install histories over a persistent DESTDIR: each install/uninstall step runs in a forked child whose every file-system mutation is observed through an audit hook (containment, dry-run), with simulator-chosen ambient umask, mtime skew (the clock --only-changed depends on), pre-populated DESTDIR and DESTDIR source; resulting trees compared with a reference model computed from the project spec',
-   text='Seeded search over generated install rule sets and bounded histories (install, reinstall, --only-changed, --dry-run, --tags, --skip-subprojects, uninstall). Containment is checked on every recorded mutation, exactness and reversibility on the tree after each step.',
+   text='Seeded search over generated install rule sets and bounded histories (install, reinstall, --only-changed, --dry-run, --tags, --skip-subprojects - also combined in one command -, uninstall). Containment is checked on every recorded mutation, exactness and reversibility on the tree after each step.',
    note='Trusted: models/install_ref.py (destinations, modes, tags from the documented rules); the audit hook sees all Python-level mutations of the in-process installer (no external helper runs: --strip is not generated, run paths are rewritten by the in-process depfixer); installed ELF files are judged against the built file up to the rewritten run path. Real code: create_install_data, minstall.Installer incl. install_targets/depfixer, scripts/uninstall; compiled targets are built for real by the C05 reference executor.', ref='DESIGN §3 C11')
 CHECKS['C05'] = dict(engine='ninja-sim', level='exploration', technique='deterministic simulation of the build scheduler: the real generated build.ninja is executed by a reference ninja (parser + evaluator + executor written for this check) whose choice among ready edges is seeded/adversarial; the injected fault is absence - each edge is replayed hermetically with only configure-time files and the declared outputs of its ancestors present; outputs compared by digest across schedules',
    text='Seeded search over generated C/C++ projects and over schedules (reverse, consumers-first, generators-last, random) plus a complete per-edge hermetic replay for every sampled project; a declaration-order build that fails is judged against the most forgiving order instead of being skipped.',
    note='Trusted: sim/ninja implements the manifest subset meson emits (scoping per the ninja manual); steps are atomic; first builds only. Real code: meson setup with the ninja backend, cc/ar/sh/python steps.', ref='DESIGN §3 C05')
-CHECKS['C06'] = dict(engine='nd-seams', level='exploration', technique='deterministic simulation of the nondeterminism itself: the same project and options are configured several times at one build-dir path under simulator-chosen PYTHONHASHSEED, environment order/padding, directory-listing permutation and history (fresh, reconfigure, configure round trip, wipe) and compared byte for byte with a baseline; a clock jump (uniform back-dating) precedes a no-change reconfigure to check untouched mtimes',
+CHECKS['C06'] = dict(engine='nd-seams', level='exploration', technique='deterministic simulation of the nondeterminism itself: the same project and options are configured several times at one build-dir path under simulator-chosen PYTHONHASHSEED, environment order/padding, directory-listing permutation and history (fresh, reconfigure, configure round trip, wipe, source edits that keep size and time stamp) and compared byte for byte with a baseline; a clock jump (uniform back-dating) precedes a no-change reconfigure to check untouched mtimes',
    text='Seeded search over projects, seam settings and histories; each group is 5-8 real meson processes.',
    note='Trusted: the launcher wraps os.listdir/os.scandir (hence os.walk/glob/Path.iterdir); same tools and paths within a group. Real code: whole configure pipeline in a real interpreter per configuration.', ref='DESIGN §3 C06')
 PENDING = {
